@@ -27,6 +27,39 @@ def scenarios(rng, tier):
     return out
 
 
+def rerun_all_handlers(ctx, fails):
+    """What a killed run leaves is the original plus, possibly, a temporary file: the next run of every handler over such a
+    directory must give what a run over a clean directory gives (same bytes, success, no temporary file left)."""
+    import samples as smp
+    n = 0
+    for name, (data, hs) in smp.per_handler().items():
+        outs = {}
+        for leftover in (None, b"", b"partial output of a killed run " * ((len(data) + 8192) // 31 + 1)):
+            t = fh.Tree()
+            try:
+                t.add_file("d/" + name, data, mode=0o640, mtime_ns=1_650_000_000_000_000_000)
+                if leftover is not None:
+                    t.add_file("d/.#." + name + ".tmp", leftover, mode=0o600)
+                rc, out = fh.run_cli(["--handler", hs[0], t.path("d")], epoch=smp.EPOCH, timeout=60)
+                n += 1
+                after = fh.snapshot(t.root)
+                label = "%s handler, %s" % (hs[0], "clean directory" if leftover is None else "leftover temporary file of %d bytes" % len(leftover))
+                a = after.get("d/" + name)
+                outs[leftover is None, len(leftover or b"")] = (rc, a and a["data"])
+                left = [r for r in after if os.path.basename(r).startswith(".#.")]
+                if left:
+                    fails.append((None, "rerun-leaves-temp", "%s: %s remains" % (label, left), label))
+            finally:
+                t.remove()
+        ref = outs[(True, 0)]
+        for k, v in outs.items():
+            if v != ref:
+                fails.append((None, "rerun-diverges", "%s handler: with a leftover temporary file (%d bytes) the run exits %d and leaves %s bytes; over a clean directory it exits %d and leaves %d bytes"
+                              % (hs[0], k[1], v[0], "no" if v[1] is None else len(v[1]), ref[0], len(ref[1] or b"")), hs[0]))
+                break
+    return n
+
+
 def entry_core(e):
     return None if e is None else {k: e.get(k) for k in ("kind", "mode", "uid", "gid", "mtime_ns", "data")}
 
@@ -117,6 +150,8 @@ def run(ctx):
                     t.remove()
         finally:
             r["t"].remove()
+    nre = rerun_all_handlers(ctx, fails)
+    ctx.coverage["reruns_over_leftovers"] = nre
     ctx.oblige("correspondence[fs/kill]: every state observed after %d kills is one of the model's intermediate states (Helper s_hist)" % nkills,
                not mism, "; ".join("%s: %s" % (sc.label(), why) for sc, why in mism[:4]))
     seen = set()
@@ -124,7 +159,11 @@ def run(ctx):
         if kind in seen:
             continue
         seen.add(kind)
-        d = write_replay(ctx, kind, fc.replay_files(sc), fc.replay_info(sc, failure=msg, kind=kind, strace_inject=inj))
+        if sc is None:
+            d = write_replay(ctx, kind, {}, {"failure": msg, "kind": kind, "case": inj,
+                                             "how_to_replay": "directory d/ with the dirty sample of the handler (lib/props/samples.py:per_handler) and a file d/.#.<name>.tmp of the stated size; SOURCE_DATE_EPOCH=%d add-determinism --handler <handler> d" % __import__('samples').EPOCH})
+        else:
+            d = write_replay(ctx, kind, fc.replay_files(sc), fc.replay_info(sc, failure=msg, kind=kind, strace_inject=inj))
         ctx.violations.append({"replay": d, "kind": kind, "msg": msg})
     ctx.coverage.update({
         "evaluations": nkills, "distinct_nontrivial": len(distinct),
